@@ -5,8 +5,8 @@
    tables are regenerated from chython/periodictable/group*.py on every run (Gen.Elements). *)
 From Coq Require Import ZArith List String Bool Permutation.
 From Model Require Import PyBase Graph PeriodicTable Valence ValenceArom.
-From Gen Require Import Elements.
-From Proofs Require Import ValenceProofs ValenceExt.
+From Gen Require Import Elements ValenceSrc.
+From Proofs Require Import ValenceProofs ValenceExt ValenceImpl ValenceSrcProofs.
 Import ListNotations.
 Open Scope string_scope.
 Open Scope Z_scope.
@@ -386,3 +386,43 @@ Theorem C04_union_split_example :
     substructure u [4; 3] true = Ok p2 /\ substructure u [] true = Err ValueError /\ substructure u [5] true = Err ValueError.
 Proof. exact union_split_example. Qed.
 Print Assumptions C04_union_split_example.
+
+(* ==== extension round 3: implicify_hydrogens ==== *)
+(* Model.ValenceArom.implicify mirrors Standardize.implicify_hydrogens.  impl_result g rem fixed = g without the atoms `rem`,
+   with the counts `fixed`; fix_h fixed k a = a with the count fixed[k] if k is a key of fixed; h_of g n k = k is a hydrogen atom
+   with at most one non-8 bond, a single bond to n. *)
+Theorem C04_implicify_sound : forall g g', wf_mol g = true -> implicify g = Ok g' ->
+  exists rem fixed, g' = impl_result g rem fixed /\
+    (forall k, In k rem -> exists ak, atom_of g k = Some ak /\ a_num ak = 1) /\
+    (forall k a, zmem k rem = false -> atom_of g k = Some a -> atom_of g' k = Some (fix_h fixed k a)) /\
+    (forall n h, zget fixed n = Some h ->
+       exists a nb hi, atom_of g n = Some a /\ a_num a <> 1 /\ zmem n rem = false /\ zget (m_adj g) n = Some nb /\
+         (forall k, In k hi -> In k rem /\ h_of g n k) /\ (1 <= List.length hi)%nat /\ Z.of_nat (List.length hi) <= h /\
+         ((forall mb, In mb nb -> b_ord (snd mb) <> 4) -> check_implicit g' n h = Ok true)).
+Proof. exact implicify_sound. Qed.
+Print Assumptions C04_implicify_sound.
+
+Theorem C04_implicify_examples :
+  wf_mol methanol_explicit = true /\ implicify methanol_explicit = Ok methanol /\
+  wf_mol ph5_explicit = true /\ implicify ph5_explicit = Ok ph5_explicit.
+Proof. exact implicify_examples. Qed.
+Print Assumptions C04_implicify_examples.
+
+(* ==== extension round 3: the hand-written branch structure against the regenerated source (Gen.ValenceSrc, written by
+        tools/gen_valence_src.py from calc_implicit / check_implicit / implicify_hydrogens on every run) ==== *)
+Theorem C04_calc_atom_follows_source : forall vr num chg rad nv, calc_atom vr num chg rad nv = calc_atom_src vr num chg rad nv.
+Proof. exact calc_atom_follows_source. Qed.
+Print Assumptions C04_calc_atom_follows_source.
+
+Theorem C04_check_atom_follows_source : forall vr num nv h, check_atom vr num nv h = check_atom_src vr num nv h.
+Proof. exact check_atom_follows_source. Qed.
+Print Assumptions C04_check_atom_follows_source.
+
+Theorem C04_arom_h_follows_source : forall num chg rad e, has_arom e = true ->
+  (if support_of src_support num chg rad then src_arom_value (arom_bonds e) (sigma_sum e) else Some None) = Some (arom_h num chg rad e).
+Proof. exact arom_h_follows_source. Qed.
+Print Assumptions C04_arom_h_follows_source.
+
+Theorem C04_implicify_constants : src_impl_consts = [1; 6; 1; 1; 8; 8; 8; 1] /\ e_num el_H = 1 /\ e_num el_C = 6.
+Proof. exact implicify_constants. Qed.
+Print Assumptions C04_implicify_constants.
